@@ -98,12 +98,31 @@ def vlq_cases(ctx):
         if len(cur) == 4096:
             blocks.append(cur)
             cur = []
+    if not ctx.quick:
+        # the rest of the property's range [-2^22, 2^22], every 13th number (all of it would be 8.4 M numbers)
+        for n in range(lim + 1, (1 << 22) + 1, 13):
+            for m in (n, -n):
+                cur.append(m)
+                if len(cur) == 4096:
+                    blocks.append(cur)
+                    cur = []
     boundary = [b + d for b in (15, 16, 511, 512, 16383, 16384, 524287, 524288, 16777215, 16777216, 536870911, 536870912, (1 << 30) - 1) for d in (-1, 0, 1)]
     cur += boundary + [-x for x in boundary]
     blocks.append(cur)
     for _ in range(2000 if ctx.quick else 100000):
         blocks[-1].append(ctx.rng.below(1 << 30) - (1 << 29))
-    return [{"id": "vlq%d" % i, "nums": b} for i, b in enumerate(blocks)]
+    out = [{"id": "vlq%d" % i, "nums": b} for i, b in enumerate(blocks)]
+    # the isize boundaries and their neighbourhood (64-bit), powers of two around every digit boundary beyond 32 bits: judged digit-wise (TVlqBig)
+    big = []
+    for k in list(range(30, 64)):
+        for d in (-1, 0, 1):
+            for sgn in (1, -1):
+                n = sgn * ((1 << k) + d)
+                if -(1 << 63) <= n <= (1 << 63) - 1:
+                    big.append(str(n))
+    big += [str(-(1 << 63)), str(-(1 << 63) + 1), str((1 << 63) - 1), str((1 << 63) - 2), "0", "1", "-1", "15", "16", "-16"]
+    out.append({"id": "vlqbig", "big": sorted(set(big), key=int)})
+    return out
 
 
 def run(ctx, res):
